@@ -151,7 +151,7 @@ func runJob(w *World, j *Job, solverKind string) (res *JobResult) {
 		return
 	}
 	st := &State{heap: map[int]*Object{}, owned: map[int]bool{}, globals: map[*ssa.Global]int{}, redirect: map[string]FuncV{},
-		ghost: map[string]Value{}, cmdTable: map[string]Value{}, initDone: map[*ssa.Package]bool{}, model: Model{}, unwind: j.Unwind, preemptBound: -1, threadMode: true}
+		ghost: map[string]Value{}, cmdTable: map[string]Value{}, initDone: map[*ssa.Package]bool{}, model: Model{}, unwind: j.Unwind, preemptBound: 0, threadMode: true}
 	st.threads = []*Thread{{ID: 0, Name: "main"}}
 	args := make([]Value, len(fn.Params))
 	for i := range fn.Params {
